@@ -965,7 +965,14 @@ pub fn generate(rng: &mut Rng, cfg: &GenCfg) -> ModuleSet {
             if is_type {
                 let name = p.type_names[i].clone();
                 let tag = g.tag();
-                let (t, mut ti) = g.gen_type(&mut ctx, 0, &name, &mut refs);
+                let (t, mut ti) = if cfg.value_import_bias && i == 0 {
+                    // import-heavy sets: the first type of every module is an integer type wide enough
+                    // to govern every generated value, so that values governed by NAMED types (local
+                    // or imported) are common
+                    ("INTEGER (0..1000)".to_string(), TypeInfo { name: String::new(), cat: "int", enumerals: vec![], named_bits: vec![], range: Some((0, 1000)) })
+                } else {
+                    g.gen_type(&mut ctx, 0, &name, &mut refs)
+                };
                 ti.name = name.clone();
                 if !tag.is_empty() {
                     // a tagged alias is a new type as far as our bookkeeping goes
